@@ -58,6 +58,7 @@ type restNodeOpts struct {
 	FeedWorkers    int    `json:"feed_workers,omitempty"`
 	NumVB          int    `json:"num_vb,omitempty"`
 	PendingMaxMs   int    `json:"pending_max_ms,omitempty"` // how long the changes cache waits for a missing sequence
+	LegacyRepl     bool   `json:"legacy_repl,omitempty"`    // this node's replications speak the revision-tree protocol only
 }
 
 type restNode struct {
@@ -169,6 +170,11 @@ func (w *restWorld) startNode(name string, o restNodeOpts, prev *restNode) (*res
 		if _, err = server.AddDatabaseFromConfig(ctx, dbc); err != nil {
 			server.Close(ctx)
 			return
+		}
+		if o.LegacyRepl {
+			if d, derr := server.GetDatabase(ctx, o.DBName); derr == nil && d.SGReplicateMgr != nil {
+				d.SGReplicateMgr.SupportedBLIPSubprotocols = []string{db.CBMobileReplicationV3.SubprotocolString()}
+			}
 		}
 		n.sc = server
 		n.admin = CreateAdminHandler(server)
